@@ -12,6 +12,12 @@ modes
                                                      the real _promote_branch_decls, with the iteration order of
                                                      `var_declared - base` dictated by the case
   sorted     {"lists": [[names]...]}                 CPython's sorted() on sets of names
+
+Every mode accepts "adv": key.  Then the name `set` in the namespaces of parser.py and emitter.py is bound to
+a subclass of set whose iteration order is dictated by the key ("asc": sorted, "desc": reverse sorted, anything
+else: sorted by sha256(key, element)) - a stand-in for "another platform's set ordering" that does not depend on
+the handful of permutations the hash seeds happen to produce.  Set displays / comprehensions of the source are
+not affected (they build the builtin type).
 """
 import hashlib
 import json
@@ -46,6 +52,57 @@ def one(src, texts, per=20):
         return {"ok": False, "exc": type(e).__name__, "msg": str(e)[:200], "sha": "exc:" + type(e).__name__}
     finally:
         signal.alarm(0)
+
+
+def make_advset(key):
+    if key == "asc":
+        def arrange(items):
+            return sorted(items, key=repr)
+    elif key == "desc":
+        def arrange(items):
+            return sorted(items, key=repr, reverse=True)
+    else:
+        def arrange(items):
+            return sorted(items, key=lambda x: hashlib.sha256((key + "\0" + repr(x)).encode("utf-8")).digest())
+
+    class AdvSet(set):
+        __slots__ = ()
+
+        def __iter__(self):
+            return iter(arrange(list(set.__iter__(self))))
+
+        def copy(self):
+            return AdvSet(set.copy(self))
+
+        def pop(self):
+            for x in self:
+                set.discard(self, x)
+                return x
+            raise KeyError("pop from an empty set")
+
+        def __reduce__(self):
+            return (AdvSet, (list(set.__iter__(self)),))
+
+    def wrap(name):
+        base = getattr(set, name)
+
+        def method(self, *a):
+            r = base(self, *a)
+            return AdvSet(r) if isinstance(r, set) and not isinstance(r, AdvSet) else r
+        method.__name__ = name
+        return method
+    for _n in ("__sub__", "__rsub__", "__or__", "__ror__", "__and__", "__rand__", "__xor__", "__rxor__", "union",
+               "difference", "intersection", "symmetric_difference"):
+        setattr(AdvSet, _n, wrap(_n))
+    return AdvSet
+
+
+def install_adv(key):
+    import Reduino.transpile.emitter as E
+    cls = make_advset(key)
+    P.set = cls
+    E.set = cls
+    return cls
 
 
 class OrderedNames(set):
@@ -104,7 +161,10 @@ def main():
     req = json.load(sys.stdin)
     signal.signal(signal.SIGALRM, _alarm)
     mode = req["mode"]
-    out = {"hashseed": os.environ.get("PYTHONHASHSEED"), "probe": list({"alpha", "beta", "gamma", "delta", "epsilon", "zeta"})}
+    adv = req.get("adv")
+    if adv:
+        install_adv(adv)
+    out = {"adv": adv, "hashseed": os.environ.get("PYTHONHASHSEED"), "probe": list({"alpha", "beta", "gamma", "delta", "epsilon", "zeta"})}
     if mode == "transpile":
         out["results"] = [one(s, req.get("texts", False)) for s in req["sources"]]
     elif mode == "session":
